@@ -1,6 +1,6 @@
 // C23 — ranges and iterable operations agree with a list model.
 //
-// Part A (ranges): the 8 range kinds × bound families (Int −2…3, Float {−0.5, 0, 1.5}, an Int pair straddling the
+// Part A (ranges): the 8 range kinds × bound families (Int −2…3, Float {−0.5, 0, 1.5}, Int bounds (2^63-2, 2^63-1, 2^63+1) straddling the
 // machine word, Char) × every probe value: `contains` (statically bound on a constant-folded range, on a range
 // built at run time, dynamically through the Range mixin, and as a `switch` range pattern), the open/closed
 // predicates, start/end, and iteration (for-in over the literal, through PrimitiveIterable, over a run-time range)
@@ -204,7 +204,8 @@ func families(thorough bool) []family {
 	}
 	fs = append(fs, g)
 	h := family{name: "BigInt", typ: "::Std::Int", discrete: true, elem: func(n *big.Int) string { return n.String() }}
-	h.bounds = []bv{bigBV("9223372036854775806"), bigBV("9223372036854775809")}
+	// 2^63-1 is the largest small Int: a range ending exactly there must stop, one starting there continues as BigInt
+	h.bounds = []bv{bigBV("9223372036854775806"), bigBV("9223372036854775807"), bigBV("9223372036854775809")}
 	for _, s := range []string{"9223372036854775805", "9223372036854775806", "9223372036854775807", "9223372036854775808", "9223372036854775809", "9223372036854775810", "0"} {
 		h.xs = append(h.xs, bigBV(s))
 	}
@@ -1349,7 +1350,7 @@ func main() {
 	engine.Main(&engine.Spec{
 		Prop:  "C23",
 		Level: "exploration",
-		Rule: "ranges: 8 range kinds × bound families {Int −2…3 (all 36 ordered pairs; thorough −3…4, 64 pairs, probes −4…5), Float {−0.5, 0, 1.5} (9 pairs), Int pair 2^63−2 / 2^63+1, Char a / c} × probes {−3…4; −3.0…4.0 step 0.5; six values around 2^63; A a b c d} " +
+		Rule: "ranges: 8 range kinds × bound families {Int −2…3 (all 36 ordered pairs; thorough −3…4, 64 pairs, probes −4…5), Float {−0.5, 0, 1.5} (9 pairs), Int bounds 2^63−2 / 2^63−1 / 2^63+1, Char a / c} × probes {−3…4; −3.0…4.0 step 0.5; six values around 2^63; A a b c d} " +
 			"× forms {constant-folded literal, range built at run time, contains through the Range mixin, switch range pattern, for-in over the literal} × observations {contains, is_left/right_open/closed, start, end, first 8 elements of the iteration}; oracle from the bounds. " +
 			"iterables: every list of length 0–3 (thorough: 0–5) over {1, 2, 3, −1} × kinds {ArrayList, ArrayList typed as Iterable, ArrayTuple, HashSet, HashMap, HashRecord (distinct lists; pairs k => 10k), ArrayList iterator, closed/open Int range iterators (consecutive lists), generator (non-empty lists), closed prefilled Channel} " +
 			"× the 27 operations of Std::Iterable with n ∈ {−1, 0, 1, 2, 5}, predicates {> 0, == 2, always, never}, probes {1, 2, −1, 5}; oracle = the operation on the Go slice (multiset / admissibility check for hash collections), " +
